@@ -846,6 +846,58 @@ def judge(recs):
     return mism, specv, bashdis, stale, stats
 
 
+# ---------------------------------------------------------------- exploration (code vs bash only)
+
+def gen_explore(ctx):
+    """${v/p/r} family, case modification, transforms, indirection, key lists: no model, no theorem"""
+    rng = ctx.rng
+    vals = ["", "abc", "aXbXc", "héllo wörld", "a b", "ab\ncd", "*a?", "AbC dEf", "a/b/c", "x'y", 'q"r', "a\\tb", "$HOME"]
+    pats = ["a", "b", "X", "*", "?", "[a-c]", "a*", "*c", "", "l", "ö", " ", "@(a|b)", "+(X)", "a|b", "*(a|ab)"]
+    reps = [None, "", "Z", "a b", "<&>"]
+    out = []
+    for v in vals:
+        for p_ in pats:
+            for kind in ["/", "//", "/#", "/%"]:
+                for r in reps:
+                    e = "${x%s%s%s}" % (kind, p_, "" if r is None else "/" + r)
+                    fam = "replace-amp" if (r and "&" in r) else ("replace-empty-pattern" if p_ == "" else "replace")
+                    out.append((fam, "x=%s\nshow \"%s\"\nprintf 'S%%s\\0' \"$?\"\n" % (q(v), e)))
+        for op in ["^", "^^", ",", ",,"]:
+            for p_ in ["", "a", "[a-c]", "?", "*", "é", "[A-Z]"]:
+                out.append(("case-mod", "x=%s\nshow \"${x%s%s}\"\nprintf 'S%%s\\0' \"$?\"\n" % (q(v), op, p_)))
+        for tr_ in "QULuEAaKkP":
+            out.append(("transform-@" + tr_, "x=%s\nshow \"${x@%s}\"\nprintf 'S%%s\\0' \"$?\"\n" % (q(v), tr_)))
+            out.append(("transform-@" + tr_ + "-array", "x=(%s b)\nshow \"${x[@]@%s}\"\nprintf 'S%%s\\0' \"$?\"\n" % (q(v), tr_)))
+            out.append(("transform-@" + tr_ + "-readonly", "declare -r x=%s\nshow \"${x@%s}\"\nprintf 'S%%s\\0' \"$?\"\n" % (q(v), tr_)))
+    for st in ["y=abc; x=y", "y=(a b); x='y[1]'", "y=(a b); x='y[@]'", "x=nope", "unset x", "x=1; set -- p q", "x='#'; set -- p q", "x='@'; set -- p q"]:
+        for e in ["${!x}", "${!x:-D}", "${!x#a}", "${!x:1}", "${!x@Q}", "${!x+W}"]:
+            out.append(("indirect", "%s\nshow \"%s\"\nprintf 'S%%s\\0' \"$?\"\n" % (st, e)))
+    for st in ["a=(p q r)", "a=([2]=x [5]=y)", "declare -A a=([k]=v)", "a=s", "unset a", "declare -a a", "a=()"]:
+        for e in ["${!a[@]}", "${!a[*]}", "${#a[@]}"]:
+            out.append(("keys", "%s\nshow \"%s\"\nprintf 'S%%s\\0' \"$?\"\n" % (st, e)))
+    for st in ["ab1=1 ab2=2 abc=3", "unset ab"]:
+        for e in ["${!ab@}", "${!ab*}", "${!zz@}"]:
+            out.append(("prefix-names", "%s\nshow \"%s\"\nprintf 'S%%s\\0' \"$?\"\n" % (st, e)))
+    if ctx.quick:
+        out = rng.sample(out, min(len(out), 700))
+    return out
+
+
+def explore(ctx):
+    cases = gen_explore(ctx)
+    code = run_code(ctx, [(s, None, []) for _, s in cases])
+    bash = run_bash([s for _, s in cases])
+    by = {}
+    for (fam, s), (c, _), b in zip(cases, code, bash):
+        d = by.setdefault(fam, {"cases": 0, "differ": 0, "examples": []})
+        d["cases"] += 1
+        if c != b:
+            d["differ"] += 1
+            if len(d["examples"]) < 3:
+                d["examples"].append({"script": s, "code": c, "bash": b})
+    return {"cases": len(cases), "by_family": by}
+
+
 def run(ctx):
     cases = gen_cond(ctx) + gen_len(ctx) + gen_sub(ctx) + gen_rm(ctx)
     recs = evaluate(ctx, cases)
@@ -879,6 +931,9 @@ def run(ctx):
     if wrong_spec:
         notes.append("%d cases where code = bash but the Coq spec differs (spec to be repaired; never reported as violations); first: %r"
                      % (len(wrong_spec), wrong_spec[0]))
+    expl = explore(ctx)
+    notes.append("exploration (code vs bash only; no model, no theorem, never part of the verdict): %d cases; differing per family: %s"
+                 % (expl["cases"], {k: "%d/%d" % (v["differ"], v["cases"]) for k, v in sorted(expl["by_family"].items())}))
     known_seen = {}
     for v in specv:
         if v.get("known"):
@@ -897,7 +952,7 @@ def run(ctx):
                 "reduce to the plain expansion (removal: the result differs from the value; substring/length: the parameter is set; every "
                 "conditional case). Distinct by script text.",
         "samples": [recs[0]["script"], recs[len(recs) // 2]["script"], recs[-1]["script"]],
-        "distribution": dict(dist, known_hits=known_seen, stale_hits=stale),
+        "distribution": dict(dist, known_hits=known_seen, stale_hits=stale, exploration=expl["by_family"]),
         "extraction_crosscheck": {"cases": len(sample), "agree": len(sample) - xbad},
         "spec_vs_bash": dict(stats, disagreements=bashdis[:400]),
         "model_mismatches": mism,
